@@ -1,4 +1,5 @@
 #!/bin/bash
+export VERIF_EVIDENCE_DIR=$(mktemp -d /tmp/ev.XXXX)  # evidence of runs against a changed tree must not replace the real one
 # seeded_regress.sh [ids...] : applies every stored seeded change to /repo in turn, runs the quick check of the property it
 # breaks (40 s budget), reverts, and prints one line per change. A change is "caught" when the check exits 1 with a VIOLATION line.
 cd /verif
